@@ -536,8 +536,9 @@ func runC06R5(c *eng.Ctx, r *eng.RuleCtx) {
 		return true
 	})
 	okHead := false
+	sameSlice := copyAliases(info, f.Decl.Body) // the slice may be handed over through copies (a collect phase returning it)
 	eng.InspectNoLit(f.Decl.Body, func(n ast.Node) bool {
-		if as, ok := n.(*ast.AssignStmt); ok && len(as.Lhs) == 1 && eng.IsField(info, as.Lhs[0], headTasks) && slice != nil && eng.SelObj(info, as.Rhs[0]) == slice {
+		if as, ok := n.(*ast.AssignStmt); ok && len(as.Lhs) == 1 && eng.IsField(info, as.Lhs[0], headTasks) && slice != nil && sameSlice(eng.SelObj(info, as.Rhs[0]), slice) {
 			okHead = true
 		}
 		return true
